@@ -8,6 +8,7 @@ Reads the Rust sources on every run and writes (always the same bytes for the sa
   Product.lean     combine_orderings
   OptionLat.lean   meet_mut / join_mut of `impl<T: Lattice> Lattice for Option<T>`
   Versions.lean    the nested fn versions_base of ascent_mir.rs
+  Dual.lean        partial_cmp / cmp / meet / join / meet_mut / join_mut / top / bottom of Dual<T>
 
 Supported fragment (anything else: exit status 2, message naming file / function / construct):
   fn body   = `use Enum::*;`* then one `match (p, q) { arm, ... }` on parameters
@@ -16,6 +17,9 @@ Supported fragment (anything else: exit status 2, message naming file / function
   arm body  = Variant | Variant(e) | binder | `if x == y { e } else { e }` | true | false
               | `{ *b = e; true }` | `x.meet_mut(y)` / `x.join_mut(y)`   (the last three: `&mut self` fns)
   versions_base: purpose-built statement list (recursive call, for-push, vec![_; n], index store, push).
+  delegating one-liner (Dual<T>): fn body = one expression `[Dual(] p.0.m([&]q.0) [)]`, p, q parameters,
+              m one of partial_cmp / cmp / meet / join / meet_mut / join_mut, or `Dual(T::top())` / `Dual(T::bottom())`;
+              receiver, argument and method are read from the Rust text and type-checked against the signature.
 Arms are first-match-wins in Rust and in Lean.  A guarded arm becomes
 `if guard then body else TAIL p q`, TAIL an auxiliary definition matching the remaining arms.
 Standard library only.
@@ -233,7 +237,7 @@ def find_enum(toks, name):
 
 
 def find_impls(toks):
-    """[(trait, type_text, generics_tokens, body_lo, body_hi)] for file-level `impl .. Trait for Type {..}`"""
+    """[(trait, type_text, generics_tokens, body_lo, body_hi, where_tokens)] for file-level `impl .. Trait for Type {..}`"""
     out, dep = [], depths(toks)
     for i, t in enumerate(toks):
         if dep[i] == 0 and is_p(t, 'impl'):
@@ -251,10 +255,11 @@ def find_impls(toks):
                 continue
             ty = head[f[0] + 1:]
             w = [m for m, h in enumerate(ty) if is_p(h, 'where')]
+            where = []
             if w:
-                ty = ty[:w[0]]
+                ty, where = ty[:w[0]], ty[w[0] + 1:]
             trait = head[:f[0]]
-            out.append((trait[-1][1] if trait else '', text_of(ty), gen, k, close_of(toks, k)))
+            out.append((trait[-1][1] if trait else '', text_of(ty), gen, k, close_of(toks, k), where))
     return out
 
 
@@ -500,6 +505,8 @@ def lean_type(ty):
         return 'Ordering'
     if ty == 'T':
         return 'α'
+    if ty == 'DualSelf':
+        return 'AscentVerif.Lat.Dual α'
     if isinstance(ty, tuple) and ty[0] == 'Opt':
         inner = lean_type(ty[1])
         return 'Option ' + (inner if ' ' not in inner else '(%s)' % inner)
@@ -508,7 +515,7 @@ def lean_type(ty):
 
 def show_type(ty):
     return {'CP': 'ConstPropagation<T>', 'Ord': 'Ordering', 'T': 'T', 'Ver': 'MirRelationVersion',
-            'MutBool': 'bool'}.get(ty) or 'Option<%s>' % show_type(ty[1])
+            'MutBool': 'bool', 'bool': 'bool', 'DualSelf': 'Dual<T>'}.get(ty) or 'Option<%s>' % show_type(ty[1])
 
 
 class Ctx:
@@ -1088,6 +1095,245 @@ def ver_expr(p, ctx):
     return lean
 
 
+# ------------------------------------------------------------------ delegating one-liners (Dual<T>)
+
+L = 'AscentVerif.Lat.'
+# Rust trait bound on the type parameter -> class of the Lean model
+BOUND_CLASS = {'PartialOrd': L + 'Lat', 'Ord': L + 'LinOrd', 'Lattice': L + 'Lat', 'BoundedLattice': L + 'BLat'}
+# called method -> (bound that provides it, Lean function, argument is `&q.0`, result type, mutates the receiver)
+DELEG_CALL = {
+    'partial_cmp': ('PartialOrd', L + 'Lat.pcmp', True, ('Opt', 'Ord'), False),
+    'cmp': ('Ord', L + 'LinOrd.cmp', True, 'Ord', False),
+    'meet': ('Lattice', L + 'Lat.meet', False, 'T', False),
+    'join': ('Lattice', L + 'Lat.join', False, 'T', False),
+    'meet_mut': ('Lattice', L + 'Lat.meetMut', False, 'bool', True),
+    'join_mut': ('Lattice', L + 'Lat.joinMut', False, 'bool', True),
+}
+# associated function `T::f()` -> (bound that provides it, Lean constant)
+DELEG_ASSOC = {'top': ('BoundedLattice', L + 'BLat.top'), 'bottom': ('BoundedLattice', L + 'BLat.bottom')}
+# declared fn (the trait's signature) -> (form of `self`, the other parameter is `&Self`, return type)
+DELEG_SIG = {
+    'partial_cmp': ('ref', True, ('Opt', 'Ord')), 'cmp': ('ref', True, 'Ord'),
+    'meet': ('val', False, 'DualSelf'), 'join': ('val', False, 'DualSelf'),
+    'meet_mut': ('refmut', False, 'bool'), 'join_mut': ('refmut', False, 'bool'),
+    'top': (None, None, 'DualSelf'), 'bottom': (None, None, 'DualSelf'),
+}
+
+
+def find_wrapper_struct(toks, name):
+    """check the file-level `struct name<G>(pub G);` (a one-field tuple struct, so that `.0` is the whole content)"""
+    dep = depths(toks)
+    hits = [i for i in range(len(toks) - 1) if dep[i] == 0 and is_p(toks[i], 'struct') and toks[i + 1][1] == name]
+    if len(hits) != 1:
+        bad("struct %s: found %d definitions, expected exactly one" % (name, len(hits)))
+    i = hits[0]
+    j = i
+    while not (is_p(toks[j], ';') or is_p(toks[j], '{')):
+        j += 1
+    txt, g = text_of(toks[i + 2:j + 1]), toks[i + 3][1]
+    if toks[i + 3][0] != 'id' or txt not in ('<%s>(pub%s);' % (g, g), '<%s>(%s);' % (g, g)):
+        bad("struct %s%s is not a one-field tuple struct `%s<T>(pub T);`" % (name, txt, name), toks[i])
+
+
+def impl_bound(gen, where, tok):
+    """-> (type parameter G, its single trait bound) of `impl<G: B>` / `impl<G> .. where G: B`"""
+    if not gen or gen[0][0] != 'id' or gen[0][1] in RUST_KEYWORDS:
+        bad("impl generics `<%s>`" % text_of(gen), tok)
+    g, bounds = gen[0][1], []
+    clauses = [('impl generics `<%s>`' % text_of(gen), gen[1:])]
+    if where:
+        w = where[:-1] if is_p(where[-1], ',') else where
+        if not w or w[0][1] != g:
+            bad("`where %s`" % text_of(where), where[0])
+        clauses.append(('`where %s`' % text_of(where), w[1:]))
+    for what, c in clauses:
+        if not c:
+            continue
+        if len(c) != 2 or not is_p(c[0], ':') or c[1][0] != 'id':
+            bad("%s (expected a single bound `%s: Trait`)" % (what, g), tok)
+        bounds.append(c[1][1])
+    if len(bounds) != 1:
+        bad("type parameter `%s` has %d trait bounds, expected exactly one" % (g, len(bounds)), tok)
+    if bounds[0] not in BOUND_CLASS:
+        bad("bound `%s: %s` has no class in the Lean model" % (g, bounds[0]), tok)
+    return g, bounds[0]
+
+
+def translate_delegating(toks, fn_i, fname, wrapper, generic, bound):
+    """one `fn` of an impl for the wrapper `Dual<G>` whose body is a delegating one-liner -> [Lean definition]"""
+    CUR['fn'] = fname
+    self_form, other_ref, ret = DELEG_SIG[fname]
+    # --- signature
+    i = fn_i + 2
+    if not is_p(toks[i], '('):
+        bad("expected `(` after the function name (generic function?)", toks[i])
+    e = close_of(toks, i)
+    dep = depths(toks)
+    parts, cur = [], []
+    for m in range(i + 1, e):
+        if is_p(toks[m], ',') and dep[m] == dep[i] + 1:
+            parts.append(cur)
+            cur = []
+        else:
+            cur.append(toks[m])
+    if cur:
+        parts.append(cur)
+    params = []  # Rust names, in order; the Lean parameter `name_0 : α` is the field `name.0`
+    if self_form is None:
+        if parts:
+            bad("parameter list `%s` (expected none)" % text_of(toks[i + 1:e]), toks[i])
+    else:
+        want_self = {'val': 'self', 'ref': '&self', 'refmut': '&mutself'}[self_form]
+        if len(parts) != 2 or text_of(parts[0]) != want_self:
+            bad("parameter list `(%s)` (expected `%s` and one more parameter)"
+                % (' '.join(t[1] for t in toks[i + 1:e]), {'&mutself': '&mut self'}.get(want_self, want_self)), toks[i])
+        o = parts[1]
+        want_ty = '&Self' if other_ref else 'Self'
+        alt_ty = ('&%s<%s>' if other_ref else '%s<%s>') % (wrapper, generic)
+        if len(o) < 3 or o[0][0] != 'id' or o[0][1] in RUST_KEYWORDS or not is_p(o[1], ':') \
+                or text_of(o[2:]) not in (want_ty, alt_ty):
+            bad("parameter `%s` (expected `name: %s`)" % (' '.join(t[1] for t in o), want_ty), o[0])
+        params = ['self', o[0][1]]
+    j = e + 1
+    if not is_p(toks[j], '->'):
+        bad("function without a return type", toks[j])
+    k = j + 1
+    while not is_p(toks[k], '{'):
+        if is_p(toks[k], 'where'):
+            bad("`where` clause", toks[k])
+        k += 1
+    ret_txt = text_of(toks[j + 1:k])
+    ok_ret = {'DualSelf': ('Self', '%s<%s>' % (wrapper, generic)), 'bool': ('bool',),
+              'Ord': ('Ordering', 'std::cmp::Ordering', 'core::cmp::Ordering')}
+    if ret == ('Opt', 'Ord'):
+        oks = tuple('%s<%s>' % (a, b) for a in ('Option', 'std::option::Option', 'core::option::Option')
+                    for b in ok_ret['Ord'])
+    else:
+        oks = ok_ret[ret]
+    if ret_txt not in oks:
+        bad("return type `%s` (the trait declares `%s`)" % (ret_txt, oks[0]), toks[j + 1])
+    hi = close_of(toks, k)
+    # --- body: [Dual(] inner [)]
+    p = P(toks, k, hi + 1)
+    p.expect('{')
+    q0 = p.peek()
+    if q0[0] == 'eof' or p.at('}'):
+        bad("empty function body", q0)
+    for kw in ('let', 'return', 'if', 'match', 'loop', 'while', 'for', 'unsafe'):
+        if p.at(kw):
+            bad("`%s ...` in the body (expected one delegating expression)" % kw, q0)
+    wrapped = False
+    if (p.at(wrapper) or p.at('Self')) and p.at('(', 1):
+        wrapped = True
+        p.i += 2
+
+    def proj():
+        q = p.peek()
+        if q[0] != 'id' or q[1] not in params:
+            bad("`%s` where a field `p.0` of a parameter is expected" % q[1], q)
+        p.i += 1
+        if not (p.eat('.') and p.peek()[0] == 'num'):
+            bad("`%s` is not followed by the field access `.0`" % q[1], q)
+        if p.peek()[1] != '0':
+            bad("field `.%s` (the wrapper has the single field `.0`)" % p.peek()[1], p.peek())
+        p.i += 1
+        return q[1]
+
+    q = p.peek()
+    uses_self = False
+    if q[0] == 'id' and q[1] == generic and p.at('::', 1):
+        p.i += 2
+        f = p.peek()
+        if f[0] != 'id' or f[1] not in DELEG_ASSOC:
+            bad("associated function `%s::%s`" % (generic, f[1]), f)
+        p.i += 1
+        if not (p.eat('(') and p.eat(')')):
+            bad("`%s::%s` is not called as `%s::%s()`" % (generic, f[1], generic, f[1]), f)
+        need, lean_f = DELEG_ASSOC[f[1]]
+        val, vty, what = lean_f, 'T', '`%s::%s()`' % (generic, f[1])
+    else:
+        recv = proj()
+        if not p.eat('.'):
+            bad("`%s.0` is not followed by a method call" % recv, p.peek())
+        m = p.peek()
+        if m[0] != 'id' or m[1] not in DELEG_CALL:
+            bad("method `.%s` (expected one of %s)" % (m[1], ' / '.join(sorted(DELEG_CALL))), m)
+        p.i += 1
+        if not p.eat('('):
+            bad("`.%s` is not a method call" % m[1], m)
+        need, lean_f, argref, vty, mutates = DELEG_CALL[m[1]]
+        amp = p.eat('&')
+        if p.at('mut'):
+            bad("`&mut` argument", p.peek())
+        arg = proj()
+        if not p.eat(')'):
+            bad("`.%s(..)` with more than one argument or a compound argument (found `%s`)" % (m[1], p.peek()[1]), p.peek())
+        if amp != argref:
+            bad("`.%s(%s%s.0)`: the argument must be passed %s" % (m[1], '&' if amp else '', arg,
+                                                                    'by reference' if argref else 'by value'), m)
+        if mutates and (recv != 'self' or self_form != 'refmut'):
+            bad("`%s.0.%s(..)` mutates its receiver, which is not the field of a `&mut self`" % (recv, m[1]), m)
+        if self_form == 'refmut' and not mutates:
+            bad("`&mut self` function whose body does not call a `_mut` method on `self.0`", m)
+        uses_self = mutates
+        val, what = '%s %s_0 %s_0' % (lean_f, recv, arg), '`%s.0.%s(..)`' % (recv, m[1])
+    if wrapped:
+        if vty != 'T':
+            bad("`%s(..)` around %s, whose type is %s" % (wrapper, what, show_type(vty)), q0)
+        if not p.eat(')'):
+            bad("expected `)` closing `%s(`, found `%s`" % (wrapper, p.peek()[1]), p.peek())
+        val, vty = '%sDual.mk %s' % (L, paren(val)), 'DualSelf'
+    if not p.at('}') or p.i != hi:
+        bad("function body is not a single delegating expression (found `%s` after it)" % p.peek()[1], p.peek())
+    if vty != ret:
+        bad("%s%s has type %s where %s is expected" % ('`%s(..)` around ' % wrapper if wrapped else '', what,
+                                                        show_type(vty), show_type(ret)), q0)
+    if need != bound:
+        bad("%s needs the bound `%s: %s`, the impl has `%s: %s`" % (what, generic, need, generic, bound), q)
+    # --- Lean
+    if uses_self:
+        lean_ret = 'α × Bool'
+        doc = '/-- `&mut self`: the value is (the new content of `self.0`, the returned flag) -/\n'
+    else:
+        lean_ret, doc = lean_type(ret), ''
+    binders = ''.join(' (%s_0 : α)' % r for r in params)
+    return ['%sdef %s {α : Type} [%s α]%s : %s :=\n  %s' % (doc, fname, BOUND_CLASS[bound], binders, lean_ret, val)]
+
+
+def generate_delegating(target, toks, impls):
+    """-> (definitions, descriptions) for a wrapper type all of whose trait fns are delegating one-liners"""
+    wrapper = target['wrapper']
+    find_wrapper_struct(toks, wrapper)
+    defs, described = [], []
+    for trait, fnames in target['impls']:
+        CUR['fn'] = '-'
+        blocks = []
+        for tr_, ty_, gen, lo, hi, where in impls:
+            if tr_ == trait and gen and gen[0][0] == 'id' and ty_ == '%s<%s>' % (wrapper, gen[0][1]):
+                blocks.append((gen, lo, hi, where))
+        shown = 'impl %s for %s<T>' % (trait, wrapper)
+        if len(blocks) != 1:
+            bad("%s: found %d impl blocks, expected exactly one" % (shown, len(blocks)))
+        gen, lo, hi, where = blocks[0]
+        generic, bound = impl_bound(gen, where, toks[lo])
+        dep = depths(toks)
+        present = [toks[i + 1][1] for i in range(lo + 1, hi - 1) if is_p(toks[i], 'fn') and dep[i] == dep[lo + 1]]
+        for extra in present:
+            if extra not in fnames:
+                bad("%s defines fn %s, for which the Lean model assumes the trait's default" % (shown, extra), toks[lo])
+        for fname in fnames:
+            CUR['fn'] = fname
+            where_ = '%s :: fn %s' % (shown, fname)
+            hits = find_fn(toks, lo + 1, hi, fname, False)
+            if len(hits) != 1:
+                bad("%s: found %d definitions, expected exactly one" % (where_, len(hits)))
+            new = translate_delegating(toks, hits[0], fname, wrapper, generic, bound)
+            described.append(where_)
+            defs.append('/-! `%s` -/' % where_)
+            defs += new
+    return defs, described
+
+
 # ------------------------------------------------------------------ targets and driver
 
 TARGETS = [
@@ -1105,6 +1351,11 @@ TARGETS = [
     {'out': 'Versions.lean', 'src': 'ascent_macro/src/ascent_mir.rs',
      'imp': 'AscentVerif.Model.Engine', 'ns': 'AscentVerif.Generated', 'enum': 'MirRelationVersion',
      'fns': [('*', None, 'versions_base')]},
+    {'out': 'Dual.lean', 'src': 'ascent_base/src/lattice/dual.rs',
+     'imp': 'AscentVerif.Model.Lattice', 'ns': 'AscentVerif.Generated.Dual', 'enum': None,
+     'wrapper': 'Dual', 'fns': [],
+     'impls': [('PartialOrd', ['partial_cmp']), ('Ord', ['cmp']),
+               ('Lattice', ['meet', 'join', 'meet_mut', 'join_mut']), ('BoundedLattice', ['top', 'bottom'])]},
 ]
 SELF_TYPES = {'ConstPropagation<T>': 'CP', 'Option<T>': ('Opt', 'T')}
 BOUNDS = {'PartialEq': 'deceq', 'Lattice': 'lat'}
@@ -1140,7 +1391,7 @@ def generate(target, repo):
             where = 'fn %s' % fname
         else:
             hits, where = [], 'impl %s for %s :: fn %s' % (trait, ty, fname)
-            for tr_, ty_, gen, lo, hi in impls:
+            for tr_, ty_, gen, lo, hi, _where in impls:
                 if tr_ == trait and ty_ == ty:
                     for h in find_fn(toks, lo + 1, hi, fname, False):
                         hits.append(h)
@@ -1161,6 +1412,8 @@ def generate(target, repo):
         described.append(where)
         defs.append('/-! `%s` -/' % where)
         defs += new
+    if 'wrapper' in target:
+        defs, described = generate_delegating(target, toks, impls)
     head = ['-- GENERATED by tools/rs2lean.py -- do not edit; rerun the tool instead.',
             '-- source file: %s' % target['src']]
     head += ['-- function:    %s' % d for d in described]
